@@ -322,6 +322,11 @@ class DULServiceProvider(Thread):
         try:
             # Decode the PDU data, get corresponding FSM event
             pdu, event = self._decode_pdu(bytestream)
+            if event != "Evt10":
+                # Check the parameter values are valid, otherwise the state
+                #   machine action that converts the PDU to a primitive fails
+                pdu.to_primitive()
+
             self.event_queue.put(event)
         except Exception as exc:
             # READ_PDU_EXC_F
